@@ -259,6 +259,18 @@ pub fn challenges(
     pi: &[F],
     version: Version,
 ) -> Challenges {
+    challenges_keep(rv, p, pi, version, None)
+}
+
+/// `challenges`, optionally handing out the transcript state right after
+/// `v_w` (before the two opening commitments are absorbed).
+pub fn challenges_keep(
+    rv: &RefVerifier,
+    p: &RefProof,
+    pi: &[F],
+    version: Version,
+    before_openings: Option<&mut Option<Transcript>>,
+) -> Challenges {
     let mut t = base_transcript(rv, pi, version);
     app_g1(&mut t, b"a_comm", &p.comm[P_A]);
     app_g1(&mut t, b"b_comm", &p.comm[P_B]);
@@ -295,6 +307,9 @@ pub fn challenges(
     app_f(&mut t, b"q_r_eval", &p.eval[E_QR]);
     let v = chal(&mut t, b"v_challenge");
     let v_w = chal(&mut t, b"v_w_challenge");
+    if let Some(keep) = before_openings {
+        *keep = Some(t.clone());
+    }
     app_g1(&mut t, b"w_z_chall_comm", &p.comm[P_W]);
     app_g1(&mut t, b"w_z_chall_w_comm", &p.comm[P_WW]);
     let u = chal(&mut t, b"u_challenge");
@@ -511,6 +526,46 @@ pub fn verify(rv: &RefVerifier, p: &RefProof, pi: &[F], version: Version) -> Ver
         accept: lhs == rhs,
         reason: if lhs == rhs { "equation holds" } else { "equation fails" },
     }
+}
+
+/// Malicious prover against a verifier whose folding challenge `u` does not
+/// (fully) depend on the two opening commitments. `u` is the only challenge
+/// the prover never computes, so a verifier that derives it too early accepts
+/// every honest proof - the weakness only shows under this attack: with `u`
+/// known before the pair is fixed, shift it so that two individually false
+/// openings cancel in the folded pairing check,
+///     W' = W + s [x - z w]_1        W_w' = W_w - (s/u) [x - z]_1
+/// (`(x-z)(W'-W) + u (x - z w)(W_w'-W_w) = 0`). `early` = 0: `u` as drawn
+/// before either commitment is absorbed; 1: after absorbing only `W'`.
+/// `x_g` = [x]_1 from the public parameters. A correct verifier rejects the
+/// result (its `u` differs), and so does the reference verifier.
+pub fn late_bound_opening_pair(
+    rv: &RefVerifier,
+    p: &RefProof,
+    pi: &[F],
+    version: Version,
+    early: u8,
+    x_g: &G1Affine,
+    s: &F,
+) -> Option<RefProof> {
+    let mut keep = None;
+    let ch = challenges_keep(rv, p, pi, version, Some(&mut keep));
+    let mut t = keep?;
+    let n_u = (rv.vk_n.max(1)).next_power_of_two();
+    let w = naive::omega(n_u.trailing_zeros());
+    let z = ch.z;
+    // [x - z w]_1 and [x - z]_1
+    let x_zw = G1Projective::from(*x_g) - smul(&rv.g, &(z * w));
+    let x_z = G1Projective::from(*x_g) - smul(&rv.g, &z);
+    let mut out = p.clone();
+    out.comm[P_W] = G1Affine::from(G1Projective::from(p.comm[P_W]) + x_zw * *s);
+    if early == 1 {
+        app_g1(&mut t, b"w_z_chall_comm", &out.comm[P_W]);
+    }
+    let u = chal(&mut t, b"u_challenge");
+    let u_inv = Option::<F>::from(u.invert())?;
+    out.comm[P_WW] = G1Affine::from(G1Projective::from(p.comm[P_WW]) - x_z * (*s * u_inv));
+    Some(out)
 }
 
 pub fn version_of(v: dusk_plonk::prelude::PlonkVersion) -> Version {
